@@ -1417,3 +1417,10 @@ mod tests {
         assert_eq!(bi.end_offset, 1); // offset of the /end TRANSFORMER
     }
 }
+
+#[cfg(a2lfile_verif)]
+pub(crate) mod verif {
+    pub(crate) fn unescape_string(text: &str) -> String {
+        super::unescape_string(text)
+    }
+}
